@@ -8,12 +8,12 @@ From Coq Require Import List Bool Arith Lia.
 From SM Require Import Model.C20_Inertia.
 Import ListNotations.
 
-(* ---------------------------------------------------------------- + and - : same class, same length only *)
-Theorem C20_addsub_accepts : forall (l : svc) (n : nat), (1 <= n)%nat ->
-  addsub_model l n (SV l) n = Value l n.
+(* ---------------------------------------------------------------- + and - : same class, same length only
+   (every length, 0 included: since /repo 1105ad0 an empty list constructs an empty object) *)
+Theorem C20_addsub_accepts : forall (l : svc) (n : nat), addsub_model l n (SV l) n = Value l n.
 Proof.
-  intros l n Hn. unfold addsub_model. replace (svc_eqb l l) with true by (destruct l; reflexivity).
-  rewrite Nat.eqb_refl. unfold construct. destruct n; [lia|reflexivity].
+  intros l n. unfold addsub_model. replace (svc_eqb l l) with true by (destruct l; reflexivity).
+  rewrite Nat.eqb_refl. reflexivity.
 Qed.
 Print Assumptions C20_addsub_accepts.
 
@@ -35,15 +35,14 @@ Print Assumptions C20_addsub_rejects_unequal_length.
 
 (* a value is produced only for the same class and equal lengths, and it has the left operand's class and length *)
 Theorem C20_addsub_value_iff : forall l nl r nr c n,
-  addsub_model l nl r nr = Value c n <-> (r = SV l /\ nl = nr /\ (1 <= nl)%nat /\ c = l /\ n = nl).
+  addsub_model l nl r nr = Value c n <-> (r = SV l /\ nl = nr /\ c = l /\ n = nl).
 Proof.
   intros l nl r nr c n. split.
   - unfold addsub_model. destruct r as [c'|]; [|discriminate].
     destruct (svc_eqb l c') eqn:E; [|discriminate]. apply svc_eqb_spec in E. subst c'.
     destruct (Nat.eqb nl nr) eqn:L; [|discriminate]. apply Nat.eqb_eq in L. subst nr.
-    unfold construct. destruct nl; [discriminate|]. intros H; injection H; intros; subst.
-    repeat split; lia.
-  - intros (-> & -> & Hn & -> & ->). apply C20_addsub_accepts. exact Hn.
+    unfold construct. intros H; injection H; intros; subst. repeat split.
+  - intros (-> & -> & -> & ->). apply C20_addsub_accepts.
 Qed.
 Print Assumptions C20_addsub_value_iff.
 
@@ -52,54 +51,57 @@ Example C20_addsub_nonvacuous :
   addsub_model Vel 1 (SV Vel) 2 = Raise ValueError /\ addsub_model Vel 1 NotSV 1 = Raise TypeError.
 Proof. repeat split. Qed.
 
-(* the enumerated table (4 classes x lengths {1,2,3,6} x (4 classes + a non-spatial operand) x lengths): 320 cells *)
-Theorem C20_addsub_table : length addsub_cells = 320%nat /\
+(* the enumerated table (4 classes x lengths {0,1,2,3,6} x (4 classes + a non-spatial operand) x lengths): 500 cells *)
+Theorem C20_addsub_table : length addsub_cells = 500%nat /\
   forallb (fun '(l, nl, r, nr) => agrees (addsub_model l nl r nr) (addsub_expected l nl r nr)) addsub_cells = true.
 Proof. split; vm_compute; reflexivity. Qed.
 Print Assumptions C20_addsub_table.
 
-Theorem C20_neg_keeps_class : forall l n, (1 <= n)%nat -> neg_model l n = Value l n.
-Proof. intros l n H. unfold neg_model, construct. destruct n; [lia|reflexivity]. Qed.
-Print Assumptions C20_neg_keeps_class.
+Theorem C20_neg_copy_keep_class : forall l n, neg_model l n = Value l n /\ copy_model l n = Value l n.
+Proof. intros l n. split; reflexivity. Qed.
+Print Assumptions C20_neg_copy_keep_class.
 
-(* ---------------------------------------------------------------- cross product: operand classes
+(* ---------------------------------------------------------------- cross product: operand classes, n-valued right operand
    FULL STATEMENT (false of the faithful model):
-     forall l r, agrees (cross_model l r) (cross_expected l r) = true
+     forall l r n, agrees (cross_model l r n) (cross_expected l r n) = true
    i.e. a motion vector crossed with ANY motion vector gives a motion vector.  The code tests
-   isinstance(other, SpatialVelocity), so an acceleration operand is rejected. *)
-Theorem C20_cross_table_refuted : exists l r,
-  is_motion l = true /\ r = SV Acc /\ agrees (cross_model l r) (cross_expected l r) = false.
-Proof. exists Vel, (SV Acc). repeat split. Qed.
+   isinstance(other, SpatialVelocity), so an acceleration operand is rejected (left as it is in /repo). *)
+Theorem C20_cross_table_refuted : exists l r n,
+  is_motion l = true /\ r = SV Acc /\ agrees (cross_model l r n) (cross_expected l r n) = false.
+Proof. exists Vel, (SV Acc), 1%nat. repeat split. Qed.
 Print Assumptions C20_cross_table_refuted.
 
-Theorem C20_cross_table_partial : forall l r, r <> SV Acc -> agrees (cross_model l r) (cross_expected l r) = true.
-Proof. intros l r H. destruct l; destruct r as [[| | |]|]; try reflexivity; congruence. Qed.
+Theorem C20_cross_table_partial : forall l r n, r <> SV Acc -> agrees (cross_model l r n) (cross_expected l r n) = true.
+Proof.
+  intros l r n H. destruct l; destruct r as [[| | |]|]; try reflexivity; try congruence;
+    unfold cross_model, cross_expected, construct, agrees, is_motion; simpl; rewrite Nat.eqb_refl; reflexivity.
+Qed.
 Print Assumptions C20_cross_table_partial.
 
-Theorem C20_cross_table : length cross_cells = 20%nat /\
-  forallb (fun '(l, r) => match r with SV Acc => true | _ => agrees (cross_model l r) (cross_expected l r) end) cross_cells = true.
+Theorem C20_cross_table : length cross_cells = 100%nat /\
+  forallb (fun '(l, r, n) => match r with SV Acc => true | _ => agrees (cross_model l r n) (cross_expected l r n) end) cross_cells = true.
 Proof. split; vm_compute; reflexivity. Qed.
 Print Assumptions C20_cross_table.
 
-(* force classes have no cross product at all; motion x* force is a force for both force classes *)
-Theorem C20_cross_classes : forall r,
-  (exists e, cross_model Frc r = Raise e) /\ (exists e, cross_model Mom r = Raise e) /\
-  cross_model Vel (SV Vel) = Value Acc 1 /\ cross_model Vel (SV Frc) = Value Frc 1 /\ cross_model Vel (SV Mom) = Value Frc 1.
-Proof. intros r. repeat split; eexists; reflexivity. Qed.
+(* force classes have no cross product at all; motion x* force is a force for both force classes; one result per value *)
+Theorem C20_cross_classes : forall r n,
+  (exists e, cross_model Frc r n = Raise e) /\ (exists e, cross_model Mom r n = Raise e) /\
+  cross_model Vel (SV Vel) n = Value Acc n /\ cross_model Vel (SV Frc) n = Value Frc n /\ cross_model Vel (SV Mom) n = Value Frc n.
+Proof. intros r n. repeat split; eexists; reflexivity. Qed.
 Print Assumptions C20_cross_classes.
 
-(* ---------------------------------------------------------------- inertia * vector, SE3 * vector: result classes *)
-Theorem C20_imul_classes : forall r, agrees (imul_model r) (imul_expected r) = true.
-Proof. intros [[| | |]|]; reflexivity. Qed.
+(* ---------------------------------------------------------------- inertia * vector, SE3 * vector: result classes, every length *)
+Theorem C20_imul_classes : forall r n, agrees (imul_model r n) (imul_expected r n) = true.
+Proof. intros [[| | |]|] n; try reflexivity; unfold imul_model, imul_expected, construct, agrees; simpl; rewrite Nat.eqb_refl; reflexivity. Qed.
 Print Assumptions C20_imul_classes.
 
-Theorem C20_imul_force_momentum :
-  imul_model (SV Acc) = Value Frc 1 /\ imul_model (SV Vel) = Value Mom 1 /\
-  forall r, r <> SV Acc -> r <> SV Vel -> imul_model r = Raise TypeError.
-Proof. repeat split. intros [[| | |]|] H1 H2; try reflexivity; congruence. Qed.
+Theorem C20_imul_force_momentum : forall n,
+  imul_model (SV Acc) n = Value Frc n /\ imul_model (SV Vel) n = Value Mom n /\
+  forall r, r <> SV Acc -> r <> SV Vel -> imul_model r n = Raise TypeError.
+Proof. intros n. repeat split. intros [[| | |]|] H1 H2; try reflexivity; congruence. Qed.
 Print Assumptions C20_imul_force_momentum.
 
-Theorem C20_se3mul_keeps_class : forall c, se3mul_model c = Value c 1.
+Theorem C20_se3mul_keeps_class : forall c n, se3mul_model c n = Value c n.
 Proof. reflexivity. Qed.
 Print Assumptions C20_se3mul_keeps_class.
 
